@@ -370,3 +370,23 @@ class C16(HistoryProperty):
         while n["k"] == "derive":
             n = by_id[n["base"]]
         return n["id"]
+
+    def signature(self, case, violation):
+        d = violation.get("detail", {})
+        if (violation["kind"] == "switch-changed-value" and d.get("switches", {}).get("effects") in ("opt", "toggle")
+                and any(n.get("effects_opt") for n in case.get("spec", {}).get("nodes", []) if n["k"] == "dataset")
+                and any(n["k"] == "coalesce" for n in case["spec"]["nodes"])):
+            # open finding (a face of KF-C10): validate() insists on an effect's own option only while effects are enabled, and
+            # coalesce chooses its member by validate()
+            return "effects-switch-changes-which-coalesce-member-validates"
+        return None
+
+    def known_probes(self):
+        spec = {"nodes": [
+            {"k": "opt", "key": "E1", "id": "n0"},
+            {"k": "dataset", "name": "D1", "args": {}, "effects_opt": ["n0"], "cache": "recording", "id": "n1"},
+            {"k": "dataset", "name": "D2", "args": {}, "cache": "recording", "id": "n2"},
+            {"k": "coalesce", "members": ["n1", "n2"], "id": "n3"}], "roots": ["n3"]}
+        sw = {"cache": "on", "effects": "opt", "logging": "on", "nest": False, "toggle_ds": "n1"}
+        ops = [{"op": "evaluate", "node": "n3", "o": {}, "sw": sw}]
+        return [("KF-C16-effects-switch-changes-coalesce-choice", {"cfg": {}, "spec": spec, "ops": ops, "nocache_variant": False, "inplace": False})]
